@@ -8,7 +8,7 @@ from pyvc import ops
 from pyvc.ops import Cases, bytes_len, const_int, norm, seg_item, seg_len
 from pyvc.state import determined_int, entails, to_bits
 from pyvc.values import (
-    CHR, EngineUnsupported, ExcValue, Fmt, HDict, HList, HMap, HObject, HSeq, hmap_from_dict, _zstr_val, Items, RaiseExc, Ref,
+    CHR, EngineUnsupported, ExcValue, Fmt, HDict, HList, HMap, HObject, HSeq, HRecSeq, hmap_from_dict, _zstr_val, _term_of, _kind_of, Items, RaiseExc, Ref,
     SBits, SBool, SBytes, SInt, SOpaque, SPayInt, SSlice, SStr, Sym, UNDEF, View, as_sbytes,
     bool_term, fresh_name, int_term, zand, znot, zor,
 )
@@ -244,7 +244,25 @@ def method(eng, st, recv, name, args, kwargs):
                 st.writes.add((recv.oid, "items"))
                 return o.items.pop()
         if isinstance(o, HSeq) and name == "append":
-            o.arr = z3.Store(o.arr, o.n, _zstr_val(args[0]))
+            o.arr = z3.Store(o.arr, o.n, _term_of(o.kind, args[0]))
+            o.n = z3.simplify(o.n + 1)
+            st.writes.add((recv.oid, "items"))
+            return None
+        if isinstance(o, HRecSeq) and name == "append":
+            d = st.obj(args[0]) if isinstance(args[0], Ref) else None
+            if not isinstance(d, HDict):
+                raise EngineUnsupported("append of a non-dict to a record sequence")
+            keys = tuple(d.d)
+            if o.keys is None:
+                o.keys = keys
+                for k in keys:
+                    o.kinds[k] = _kind_of(d.d[k])
+                    from pyvc.values import _default_term
+                    o.arrs[k] = z3.K(z3.IntSort(), _default_term(o.kinds[k]))
+            if keys != o.keys:
+                raise EngineUnsupported(f"record with keys {keys} appended to a sequence of records with keys {o.keys}")
+            for k in keys:
+                o.arrs[k] = z3.Store(o.arrs[k], o.n, _term_of(o.kinds[k], d.d[k]))
             o.n = z3.simplify(o.n + 1)
             st.writes.add((recv.oid, "items"))
             return None
@@ -431,7 +449,8 @@ def get_item(eng, st, o, i):
         if isinstance(obj, HSeq):
             k = int_term(i)
             ok = z3.And(k >= 0, k < obj.n)
-            return Cases([(ok, SOpaque("str", z3.Select(obj.arr, k))), (z3.Not(ok), RaiseExc(IndexError, "list index out of range"))])
+            from pyvc.symex import wrap_kind
+            return Cases([(ok, wrap_kind(obj.kind, z3.Select(obj.arr, k))), (z3.Not(ok), RaiseExc(IndexError, "list index out of range"))])
         if isinstance(obj, HList) and isinstance(i, Sym) and determined_int(st.pc, int_term(i)) is None \
                 and all(isinstance(x, (str, SOpaque)) for x in obj.items):
             obj = HSeq.from_list(obj.items)
